@@ -197,6 +197,8 @@ where
     #[pin]
     inner: InnerCheckoutConnecting<T, P, B>,
     connection: Option<P::Connection>,
+    /// `connection` is a handle to a multiplexed connection which the pool still holds itself.
+    shared: bool,
     meta: ConnectorMeta,
     #[cfg(debug_assertions)]
     id: CheckoutId,
@@ -239,6 +241,7 @@ where
                     waiter: Waiting::NoPool,
                     inner: InnerCheckoutConnecting::ConnectingDelayed(connector.take().unwrap()),
                     connection: None,
+                    shared: false,
                     meta: ConnectorMeta::new(), // New meta to avoid holding spans in the spawned task
                     #[cfg(debug_assertions)]
                     id: *this.id,
@@ -276,6 +279,7 @@ where
             waiter: Waiting::NoPool,
             inner: InnerCheckoutConnecting::Connecting(connector),
             connection: None,
+            shared: false,
             meta: ConnectorMeta::new(),
             #[cfg(debug_assertions)]
             id,
@@ -288,6 +292,7 @@ where
         waiter: Receiver<Pooled<P::Connection, B>>,
         connect: Option<Connector<T, P, B>>,
         connection: Option<P::Connection>,
+        shared: bool,
         config: &Config,
     ) -> Self {
         #[cfg(debug_assertions)]
@@ -305,6 +310,7 @@ where
                 waiter: Waiting::Idle(waiter),
                 inner: InnerCheckoutConnecting::Connected,
                 connection,
+                shared,
                 meta,
                 #[cfg(debug_assertions)]
                 id,
@@ -324,6 +330,7 @@ where
                 waiter: Waiting::Idle(waiter),
                 inner,
                 connection,
+                shared,
                 meta,
                 #[cfg(debug_assertions)]
                 id,
@@ -336,6 +343,7 @@ where
                 waiter: Waiting::Connecting(waiter),
                 inner: InnerCheckoutConnecting::Waiting,
                 connection,
+                shared,
                 meta,
                 #[cfg(debug_assertions)]
                 id,
@@ -395,6 +403,16 @@ where
 
                 this.waiter.close();
                 this.inner.set(InnerCheckoutConnecting::Connected);
+
+                if *this.shared {
+                    // The pool kept its own handle when this connection was checked out.
+                    return Poll::Ready(Ok(Pooled {
+                        connection: Some(connection),
+                        token: Token::zero(),
+                        pool: PoolRef::none(),
+                    }));
+                }
+
                 Poll::Ready(Ok(register_connected(this.pool, *this.token, connection)))
             }
             CheckoutConnectingProj::Connecting(connector) => {
@@ -513,6 +531,18 @@ where
     fn drop(mut self: Pin<&mut Self>) {
         #[cfg(debug_assertions)]
         tracing::trace!(id=%self.id, "drop for checkout");
+
+        // A connection taken out of the pool but never handed to the caller goes back to the pool.
+        {
+            let this = self.as_mut().project();
+            if let Some(connection) = this.connection.take() {
+                if !*this.shared && connection.is_open() {
+                    if let Some(mut pool) = this.pool.lock() {
+                        pool.push(*this.token, connection, this.pool.clone());
+                    }
+                }
+            }
+        }
 
         if let Some(checkout) = self.as_mut().as_delayed() {
             tokio::task::spawn(async move {
